@@ -10,7 +10,10 @@ EXTENDS Naturals, Sequences, FiniteSets, TLC, Json
 
 CONSTANTS MaxLen
 Query == {"source", "ast", "severity", "findings", "imports", "calls", "flags", "unused",
-          "nonstd", "unsafe", "trace", "dumps"}
+          "nonstd", "unsafe", "trace", "dumps",
+          \* decompiling / tracing the way the command line does for a member of a stack (own variable numbering and
+          \* result name): a read-only query like the others
+          "source_cli", "trace_cli"}
 Where == {"reparse", "fresh1", "fresh2"}      \* switch to a re-parsed copy / a fresh process
 Step  == Query \cup Where
 
